@@ -374,6 +374,34 @@ def pvals(ctx: Ctx):
         "2 * (1 - t.cdf(abs(t_stats), df=columns_base + selected_columns_base - 2 if t_stats.size > 0 else 0))",
         "two-sided Student-t tail with n_a + n_b - 2 degrees of freedom",
     )
+    # whatever the spelling: the p-value is defined wherever the STATISTIC is - an infinite t (both proportions degenerate
+    # and different: zero variance) is a test with p exactly 0, only a NaN t has no p.  A finiteness mask on the statistic
+    # (np.isfinite / ~np.isinf) silently drops those columns from the index sets.
+    from ..stmts import reachable_functions, resolver
+
+    n_fn, hits = 0, []
+    for cname in ("_PairwiseSigPvals", "_PairwiseMeansSigPVals", "_PairwiseSigPValsForSubvar"):
+        pc = ctx.repo.opt_cls(MM, cname)
+        if pc is None:
+            continue
+        for member in ("_p_vals", "blocks"):
+            if ctx.repo.lookup(pc, member) is None:
+                continue
+            for fn in reachable_functions(ctx.repo, pc, member):
+                n_fn += 1
+                res = resolver(fn, multi=True)
+                params = {a.arg for a in fn.args.args}
+                for c in ast.walk(fn):
+                    if isinstance(c, ast.Call) and u(c.func) in ("np.isfinite", "np.isinf", "np.isposinf", "np.isneginf", "math.isfinite") and c.args:
+                        texts = [u(v).lower() for v in res(c.args[0])] + [u(c.args[0]).lower()]
+                        if any("t_stat" in t or "tstat" in t or t in ("t", "ts") for t in texts):
+                            hits.append((f"{MM}::{cname}.{getattr(fn, 'name', member)}", u(c)))
+    ctx.count("p-value functions scanned for finiteness masks", n_fn)
+    for where_, text in sorted(set(hits)):
+        ctx.violated("p-defined-where-t-is", where_, f"{text} selects the cells that get a p-value", "p is computed wherever t is not NaN (t = +-inf gives p = 0)",
+                     "a column whose t is infinite differs from the selected one with certainty: NaN for its p-value removes it from the pairwise index sets")
+    if not hits:
+        ctx.held("p-defined-where-t-is", f"{MM}: pairwise p-value classes", f"{n_fn} functions, no finiteness mask on the t statistic", "")
     e = expand(ctx.repo, ci, "blocks", stop=lambda mm: mm.name in ("_p_vals", "_selected_columns_base", "_column_bases"))
     T = f"{SOM}.pairwise_t_stats(self._selected_column_idx).blocks"
     call = lambda i, j: f"self._p_vals({T}[{i}][{j}], self._column_bases[{i}][{j}], self._selected_columns_base({i}))"
